@@ -298,7 +298,7 @@ class Engine:
                 return ("len", args[0], self.version(args[0], p))
             ck = M.lookup_class_name(fr["fn"].mod, f.id)
             if ck:
-                return ("new", ck, e.lineno)
+                return ("new", ck, e.lineno, tuple(args))
             if f.id in PURE_BUILTINS:
                 return ("call", f.id, tuple(args), e.lineno)
         if isinstance(f, ast.Attribute):
@@ -507,7 +507,7 @@ class Engine:
         elif isinstance(f, ast.Name):
             ck = M.lookup_class_name(fr["fn"].mod, f.id)
             if ck:
-                return [(p, ("new", ck, e.lineno))]
+                return [(p, ("new", ck, e.lineno, tuple(args)))]
             callee = M.funcs.get(f"{fr['fn'].mod}.{f.id}")
         may_inline = callee is not None and (self.inline_sub or recv is None or recv == ("self0",) or callee.kind == "static")
         if callee is not None and not may_inline:
